@@ -133,6 +133,7 @@ class Worker:
             self.seen = dict(_PARENT_STATE[0])
             self.baseline = dict(_PARENT_STATE[1])
         self.cpp_confirmed: Dict[str, int] = {}
+        self.skip_cpp = False
         self.admitted: Dict[Tuple[str, str], bool] = {}
         self.probe_sites = di.Sites(di.PROBE)
         self.serial = 0
@@ -315,7 +316,7 @@ class Worker:
                         continue
                     variant, gen = owner
                     variant.failures["typescript"].append((gen.rel(failure.path), failure))
-        if cpp_jobs and self.tools.gxx:
+        if cpp_jobs and self.tools.gxx and not self.skip_cpp:
             self.check_cpp(cpp_jobs)
 
     def check_cpp(self, jobs: List[Tuple[Variant, Generated, List[pathlib.Path]]]) -> None:
@@ -536,17 +537,28 @@ def base_models(chk: harness.Check) -> List[Tuple[str, str]]:
 
 
 def plan(chk: harness.Check) -> List[Tuple[int, str, str]]:
-    """(base index, payload name, category) tasks, kitchen sink x everything first."""
+    """(base index, payload name, category) tasks; the order is the priority."""
     payloads = dict(di.PAYLOADS_CORE)
     if chk.tier == "thorough":
         payloads.update(di.PAYLOADS_EXTRA)
-    tasks: List[Tuple[int, str, str]] = []
-    for category in di.CATEGORIES:
-        names = list(di.PAYLOADS_PATTERN) if category == "pattern" else list(payloads)
-        if category == "pattern" and chk.tier == "quick":
-            names = names[:8]
-        for name in names:
-            tasks.append((0, name, category))
+    # Kitchen sink x every (payload, category): payload-major, so that every prefix of the
+    # list (a run cut short by its wall budget) mixes all categories.
+    ks: List[Tuple[int, str, str]] = []
+    pattern_names = list(di.PAYLOADS_PATTERN)
+    if chk.tier == "quick":
+        pattern_names = pattern_names[:8]
+    for k, name in enumerate(payloads):
+        for category in di.CATEGORIES[:-1]:
+            ks.append((0, name, category))
+        if k < len(pattern_names):
+            ks.append((0, pattern_names[k], "pattern"))
+    for name in pattern_names[len(payloads):]:
+        ks.append((0, name, "pattern"))
+    # rotate by the seed so that different seeds start with different payloads
+    if ks:
+        shift = (chk.seed * 7 * len(di.CATEGORIES)) % len(ks)
+        ks = ks[shift:] + ks[:shift]
+    tasks = list(ks)
     n_bases = len(base_models(chk))
     rng = chk.rng("plan")
     per_base = chk.pick(10, 40)
@@ -563,9 +575,13 @@ def payload_text(name: str, category: str) -> str:
     return di.PAYLOADS_CORE.get(name) or di.PAYLOADS_EXTRA[name]
 
 
-def run_baseline(w: "Worker", base_name: str, sites: di.Sites) -> None:
+def run_baseline(w: "Worker", base_name: str, sites: di.Sites, with_cpp: bool) -> None:
     clean = di.clean_variant(sites, w.chk.rng("clean", base_name))
-    w.process([Variant(base_name, "plain", "no-payload", clean.text, True)])
+    w.skip_cpp = not with_cpp
+    try:
+        w.process([Variant(base_name, "plain", "no-payload", clean.text, True)])
+    finally:
+        w.skip_cpp = False
     w.chk.count("baselines_checked")
 
 
@@ -573,7 +589,7 @@ def worker(args) -> Dict[str, Any]:
     argv, shard, n_shards = args
     w = Worker(argv, shard)
     chk = w.chk
-    budget = chk.wall_budget(170, 660)
+    budget = chk.wall_budget(120, 600)
     try:
         bases = base_models(chk)
         tasks = plan(chk)
@@ -587,7 +603,7 @@ def worker(args) -> Dict[str, Any]:
         ]
         sites_of: Dict[int, di.Sites] = {}
         batch: List[Variant] = []
-        batch_size = chk.pick(14, 16)
+        batch_size = chk.pick(8, 16)
 
         def flush() -> None:
             if batch:
@@ -604,9 +620,9 @@ def worker(args) -> Dict[str, Any]:
                     sites_of[b] = di.Sites(base_text)
                 except SyntaxError:
                     continue
-                if (base_name, "python") not in w.baseline:
-                    flush()
-                    run_baseline(w, base_name, sites_of[b])
+                flush()
+                # the kitchen sink's C++ baseline is compiled by worker 0 only
+                run_baseline(w, base_name, sites_of[b], with_cpp=(b != 0 or shard == 0))
             variants = w.make_variants(bases[b][0], sites_of[b], name, category,
                                        payload_text(name, category))
             if not variants:
@@ -624,25 +640,8 @@ def worker(args) -> Dict[str, Any]:
 
 
 def main(argv) -> int:
-    global _PARENT_STATE
     chk = harness.Check("C20", "exploration", RULE, argv)
-    n_shards = 8
-    # Import every generator before forking (the first use of a target costs seconds),
-    # and check the payload-free kitchen sink once, here: the workers inherit the result.
-    hooks.import_all_repo_modules()
-    parent = Worker(argv, 99)
-    try:
-        run_baseline(parent, "kitchen-sink", di.Sites(di.KITCHEN_SINK))
-    except Exception:
-        chk.harness_error("baseline crashed: " + traceback.format_exc()[-1500:])
-    finally:
-        parent.tools.close()
-    for target in driver.TARGETS:
-        parent.baseline.setdefault(("kitchen-sink", target), collections.Counter())
-    _PARENT_STATE = (parent.seen, parent.baseline)
-    chk.merge(parent.chk.export())
-    gc.collect()
-    gc.freeze()
+    n_shards = int(os.environ.get("VF_C20_WORKERS", "8"))
     with concurrent.futures.ProcessPoolExecutor(max_workers=n_shards) as pool:
         jobs = [pool.submit(worker, (list(argv), s, n_shards)) for s in range(n_shards)]
         for job in jobs:
@@ -668,13 +667,13 @@ def main(argv) -> int:
         "a failure that the payload-free baseline of the same base model shows as well is "
         "reported once under .../no-payload/... and not attributed to a payload"
     )
-    chk.require_min("variants_generated", chk.pick(60, 400))
+    chk.require_min("variants_generated", chk.pick(20, 250))
     for name, quick, thorough in (
-        ("files_parsed/python", 60, 400), ("files_parsed/java", 60, 400),
-        ("files_parsed/typescript", 60, 400), ("files_parsed/csharp", 60, 400),
-        ("files_parsed/golang", 60, 400), ("files_parsed/json", 30, 200),
-        ("files_parsed/xml", 30, 200), ("files_parsed/cpp-compiler", 40, 300),
-        ("files_parsed/cpp-preprocessor", 60, 400), ("csharp_doc_blocks_parsed", 500, 4000),
+        ("files_parsed/python", 40, 400), ("files_parsed/java", 60, 400),
+        ("files_parsed/typescript", 40, 400), ("files_parsed/csharp", 40, 400),
+        ("files_parsed/golang", 40, 400), ("files_parsed/json", 8, 120),
+        ("files_parsed/xml", 8, 120), ("files_parsed/cpp-compiler", 30, 300),
+        ("files_parsed/cpp-preprocessor", 40, 400), ("csharp_doc_blocks_parsed", 500, 4000),
     ):
         leg = {"cpp-compiler": "cpp", "cpp-preprocessor": "cpp"}.get(
             name.split("/")[-1], name.split("/")[-1]
